@@ -1,6 +1,7 @@
 package sym
 
 import (
+	"os"
 	"fmt"
 	"go/token"
 	"go/types"
@@ -851,6 +852,9 @@ func (r *Run) assert(st *State, c *smt.Term, label string, pos token.Pos) {
 		return
 	}
 	res, m := r.model(st, smt.Not(c))
+	if st.Rp != nil && os.Getenv("VERIF_RPDEBUG") != "" {
+		fmt.Fprintf(os.Stderr, "    replay assert %s @%s idx=%d: %s cond=%s\n", label, st.pos(pos), st.Rp.Idx, res, c.String())
+	}
 	switch res {
 	case smt.Unsat:
 		r.Discharged++
